@@ -196,6 +196,8 @@ def run(rep: vk.Report):
                     nmeta.append({"entry": [names[a], names[b]], "expr": repr(e)[:300], "V": names, "point": pt, "value": float(M[a, b]),
                                   "path": hf.__name__})
     tfails = trees.run()
+    # ---- derivatives of formulas AS WRITTEN (independent NumPy function, finite differences), the same object under two orders
+    wd_checked, wd_bad = common.written_derivatives(rep, rng, 2 if rep.tier == "quick" else 40, "hess", "C17")
     nfails, nund = common.run_classify(IMPORTS + " SemI HarnessI", DEFS, NUM_TYPE, nums, NUM_CHECKER) if nums else ([], [])
     tree_reports = searched = 0
     for i in tfails:
@@ -217,6 +219,8 @@ def run(rep: vk.Report):
         rep.violation({"kind": "numeric", "obligation": "compiled Hessian entry within the enclosure of the model's second derivative",
                        "case": nums[i][:3000], "witness": nmeta[i]}, concrete=True)
     cov = rep.coverage
+    cov["derivatives_of_formulas_as_written_vs_finite_differences"] = wd_checked
+    cov["derivatives_of_formulas_as_written_disagreements"] = wd_bad
     cov["evaluations"] = len(trees.terms) + len(nums)
     cov["distinct_nontrivial"] = trees.nontrivial
     cov["rule"] = ("twice differentiable API-built expressions (vectorised sums with every fast-path power/op, dot products, quadratic "
